@@ -355,12 +355,13 @@ for node_name in it: node_names
             let c = final(self).canon(final(self).nodes_map@[edge.u], final(self).nodes_map@[edge.v]);
             let ex = old(self).existed(*edge);
             let replace = ex && !old(self).specs.multi_edges;
-            let s0 = rows_ext(rows_of(old(self).successors_vec@), final(self).n());
-            let p0 = rows_ext(rows_of(old(self).predecessors_vec@), final(self).n());
-            &&& old(self).specs.directed ==> rows_of(final(self).successors_vec@) == adj_apply(s0, c.0, c.1, edge.weight, ex, replace)
-            &&& old(self).specs.directed ==> rows_of(final(self).predecessors_vec@) == adj_apply(p0, c.1, c.0, edge.weight, ex, replace)
-            &&& !old(self).specs.directed ==> rows_of(final(self).successors_vec@) == adj_apply(adj_apply(s0, c.0, c.1, edge.weight, ex, replace), c.1, c.0, edge.weight, ex, replace)
-            &&& !old(self).specs.directed ==> rows_of(final(self).predecessors_vec@) == p0
+            let w = edge.weight;
+            &&& forall|i: int| 0 <= i < final(self).n() ==> (#[trigger] final(self).successors_vec@[i])@ ==
+                    expected_row(pad_row(old(self).successors_vec@, i), i, c.0, c.1, w, ex, replace, !old(self).specs.directed)
+            &&& old(self).specs.directed ==> forall|i: int| 0 <= i < final(self).n() ==> (#[trigger] final(self).predecessors_vec@[i])@ ==
+                    expected_row(pad_row(old(self).predecessors_vec@, i), i, c.1, c.0, w, ex, replace, false)
+            &&& !old(self).specs.directed ==> forall|i: int| 0 <= i < final(self).n() ==> (#[trigger] final(self).predecessors_vec@[i])@ ==
+                    pad_row(old(self).predecessors_vec@, i)
         }),
 //@ after let edge_already_exists = self.get_edge_by_indexes(u_node_index, v_node_index).is_ok();
         let ghost g1 = *self;
@@ -375,9 +376,6 @@ for node_name in it: node_names
             }
             assert(edge_already_exists == old(self).existed(*edge));
             assert(edge_already_exists ==> *self == *old(self));
-            // node creation only appends empty traversal rows
-            assert(rows_of(g1.successors_vec@) =~~= rows_ext(rows_of(old(self).successors_vec@), g1.n()));
-            assert(rows_of(g1.predecessors_vec@) =~~= rows_ext(rows_of(old(self).predecessors_vec@), g1.n()));
         }
 //@ before match self.specs.multi_edges {
         proof {
@@ -386,16 +384,8 @@ for node_name in it: node_names
         let ghost g2 = *self;
 //@ before #3 Ok(())
         proof {
-            // the store changed at the canonical key only; the new list is well-formed
-            assert(g1.name_of(u_node_index) == edge.u && g1.name_of(v_node_index) == edge.v);
-            assert(self.has_pair(ordered_edge_u, ordered_edge_v));
-            assert forall|k: int| 0 <= k < self.pair_list(ordered_edge_u, ordered_edge_v).len() implies
-                self.edge_fits(*#[trigger] self.pair_list(ordered_edge_u, ordered_edge_v)[k], ordered_edge_u, ordered_edge_v) by {
-                if k < g2.pair_list(ordered_edge_u, ordered_edge_v).len() && g2.has_pair(ordered_edge_u, ordered_edge_v) && self.specs.multi_edges {
-                    assert(g2.edge_fits(*g2.pair_list(ordered_edge_u, ordered_edge_v)[k], ordered_edge_u, ordered_edge_v));
-                }
-            }
-            lemma_estore_after_store(g2, *self, ordered_edge_u, ordered_edge_v);
+            // the store changed at the canonical key only: the list there is [ordered] or the old list plus ordered
+            lemma_estore_after_store(g2, *self, ordered_edge_u, ordered_edge_v, ordered);
         }
 //@ end
 
